@@ -28,6 +28,16 @@ def main():
     for noisy in ("asyncio", "aiormq", "pamqp", "redis"):
         logging.getLogger(noisy).addHandler(logging.NullHandler())
     warnings.simplefilter("ignore", DeprecationWarning)
+    cov = None
+    import os
+
+    if os.environ.get("RV_COVERAGE_DIR"):
+        # optional reach report (tools/reach.sh): which lines of the library the workloads of a check execute
+        import coverage
+
+        cov = coverage.Coverage(data_file=os.path.join(os.environ["RV_COVERAGE_DIR"], f".coverage.{prop}"), data_suffix=True,
+                                source=[os.path.join(os.environ.get("REPID_SRC", "/repo"), "repid")], branch=True)
+        cov.start()
     mod = importlib.import_module(f"rv.checks.{prop}")
     with open(inp) as f:
         cases = json.load(f)
@@ -61,6 +71,9 @@ def main():
                 r["runtime_warnings"] = caught[:3]
             fo.write(json.dumps(r, default=str) + "\n")
             fo.flush()
+    if cov is not None:
+        cov.stop()
+        cov.save()
 
 
 if __name__ == "__main__":
